@@ -10,6 +10,30 @@ BASELINE_OFF = ("cd /repo && env -u SHAREPOINT2TEXT_VERIF /venv/bin/python -m py
 
 # pid -> (category, technique, level text, level note, design ref)
 CHECKS = {
+    "C02": ("exploration",
+            "ground-truth document generators with unique class-tagged tokens; token oracle (multiset/order/gluing/leakage) over get_full_text() of the real extractors in sandboxed workers",
+            "Hand-written writers (never the libraries the extractors read with) render random documents whose every text leaf is a unique token; the oracle tokenises "
+            "get_full_text() and decides loss, duplication, reordering, gluing across boundaries, leakage of excluded classes and foreign text. Clean documents must be silent; each risky "
+            "feature is paired with a control twin. Held on the generated documents only; constructs outside the writers' vocabulary are not covered.",
+            "Trusts the writers in vlib/gen (cross-checked by clean cases/twins being silent) and the per-format claim matrix of DESIGN.md Appendix A.",
+            "DESIGN.md §8 C02, Appendix A"),
+    "C03": ("exploration",
+            "ground-truth multi-unit documents; oracle over iterate_units(): count, 1-based strictly increasing numbers, per-unit token attribution, join equality",
+            "Generated documents with 1..N pages/slides/sheets (incl. empty ones) and heading structures; every token must be returned by exactly the unit it belongs to "
+            "(heading tokens may be covered by heading paths), unit numbers must be the 1-based source positions, and get_full_text() must equal the trimmed newline-join for the formats the property lists.",
+            "Same generators as C02; flowing-text formats may produce one unit or one per heading section.",
+            "DESIGN.md §8 C03, Appendix A"),
+    "C13": ("exploration",
+            "ground-truth tables (token cells and typed values) vs iterate_tables()/get_dim() of the real extractors",
+            "Generated r x c grids with empty cells, multi-paragraph cells, header rows, typed spreadsheet values; compared cell by cell (tokens / value equality), table count/order and get_dim().",
+            "Same generators as C02.",
+            "DESIGN.md §8 C13"),
+    "C14": ("exploration",
+            "generated PNG/JPEG/GIF/BMP files embedded by hand-written writers; sha1/type/size/number/unit oracle over iterate_images() and unit.get_images()",
+            "Every placed image must come back bit-exact, in document order, numbered 1..n, with the right content type, pixel size (where the format reports the file's own size) and on the right unit; "
+            "unit-level images must be a sub-view of the document iterator and coincide for page/slide/sheet formats.",
+            "Same generators as C02; vlib/gen/images.py writes valid minimal raster containers.",
+            "DESIGN.md §8 C14"),
     "C20": ("exploration",
             "icontract post-conditions on the real AES mode functions vs an independent FIPS-197 reference; finite tables enumerated",
             "Every call of the real aes_ecb/cbc_encrypt/decrypt (direct, through pypdf's patched bindings and CryptAES) is compared by a "
